@@ -214,6 +214,7 @@ theorem shapeIndex_one (v : Val) (c n1 : Int) (h : Spec.shapeOfVal v = some [c, 
     | [n], h, hw =>
       simp only [Spec.shapeOfVal] at h
       simp only [WFShape] at hw
+      obtain ⟨hw, _⟩ := hw
       split at h
       · rename_i hk
         have hint : dt.isInteger = true := by simpa [DType.isInteger] using hk
@@ -359,13 +360,15 @@ theorem mapM_cons_some {α β : Type} (f : α → Option β) (x : α) (xs : List
 /-- `v[1:]` and `v[0]` of a well-formed shape value `[c, *spatial]` -/
 theorem shapeTail_reading (v : Val) (c : Int) (spatial : List Int) (h : Spec.shapeOfVal v = some (c :: spatial))
     (hw : WFShape v) :
-    (∃ y, shapeTail v = .ok y ∧ IntReading y spatial) ∧ (∃ x, shapeIndex v 0 = .ok x ∧ Val.asInt? x = some c) := by
+    (∃ y, shapeTail v = .ok y ∧ IntReading y spatial) ∧
+    (∃ x, shapeIndex v 0 = .ok x ∧ Val.asInt? x = some c ∧ NoUnsigned x) := by
   cases v with
   | arr dt sh d =>
     match sh, h, hw with
     | [n], h, hw =>
       simp only [Spec.shapeOfVal] at h
       simp only [WFShape] at hw
+      obtain ⟨hw, hnu⟩ := hw
       split at h
       · rename_i hk
         have hint : dt.isInteger = true := by simpa [DType.isInteger] using hk
@@ -382,7 +385,8 @@ theorem shapeTail_reading (v : Val) (c : Int) (spatial : List Int) (h : Spec.sha
           have htail : chunks dt.size (d.drop dt.size) = rest := by rw [chunks_drop _ hsz, hc]; rfl
           have hlen : spatial.length = rest.length := by rw [← h.2]; simp
           refine ⟨⟨.arr dt [n - 1] (d.drop dt.size), by simp [shapeTail], ?_⟩,
-                  ⟨.npscalar dt b, by simp [shapeIndex, hw, hc], by simp [Val.asInt?, hint, h.1]⟩⟩
+                  ⟨.npscalar dt b, by simp [shapeIndex, hw, hc], by simp [Val.asInt?, hint, h.1],
+                    fun dt' b' e => by cases e; exact hnu⟩⟩
           refine ⟨rfl, by simp [Val.len?, hw, hlen], ?_⟩
           intro i hi
           have hi' : i < n - 1 := by rw [hw]; simp; omega
@@ -397,7 +401,8 @@ theorem shapeTail_reading (v : Val) (c : Int) (spatial : List Int) (h : Spec.sha
     | nil => simp at h
     | cons x xs' =>
       obtain ⟨hx, hr⟩ := mapM_cons_some _ _ _ _ _ h
-      exact ⟨⟨.tuple xs', by simp [shapeTail], reading_tuple xs' spatial hr⟩, ⟨x, by simp [shapeIndex], hx⟩⟩
+      exact ⟨⟨.tuple xs', by simp [shapeTail], reading_tuple xs' spatial hr⟩,
+        ⟨x, by simp [shapeIndex], hx, hw x List.mem_cons_self⟩⟩
   | list xs =>
     simp only [Spec.shapeOfVal] at h
     rw [← asInt_eq] at h
@@ -405,8 +410,20 @@ theorem shapeTail_reading (v : Val) (c : Int) (spatial : List Int) (h : Spec.sha
     | nil => simp at h
     | cons x xs' =>
       obtain ⟨hx, hr⟩ := mapM_cons_some _ _ _ _ _ h
-      exact ⟨⟨.list xs', by simp [shapeTail], reading_list xs' spatial hr⟩, ⟨x, by simp [shapeIndex], hx⟩⟩
+      exact ⟨⟨.list xs', by simp [shapeTail], reading_list xs' spatial hr⟩,
+        ⟨x, by simp [shapeIndex], hx, hw x List.mem_cons_self⟩⟩
   | _ => simp [Spec.shapeOfVal] at h
+
+theorem poolArray_cons (c o : Int) (os : List Int) (x : Val) (hx : NoUnsigned x) :
+    poolArray c (o :: os) x = .ok (shapeArray (c :: o :: os)) := by
+  unfold poolArray
+  split
+  · rename_i h; cases h
+  · rename_i dt b _
+    have : dt.kind ≠ DKind.uint := hx dt b rfl
+    have e : (dt.kind == DKind.uint) = false := by simpa using this
+    simp [e]
+  · rfl
 
 /-- one loop body on a **pooling** node (its types are never serialised, so after every read
 they are erased): the output type is `[c, *calculate_conv_output(spatial, padding, 1, kernel_size, stride)]` -/
@@ -421,7 +438,7 @@ theorem stepNode_pool (pre post : Node) (vo vi : Val) (c : Int) (spatial outs : 
   obtain ⟨v, h1, hv, hwv⟩ := inferInput_keyed pre post vo vi _ hpo hso hpi hvi hwo hwi
   have hwsa := wf_shapeArray (c :: outs)
   obtain ⟨⟨y, hy, hread⟩, _⟩ := shapeTail_reading vo c spatial hso hwo
-  obtain ⟨_, ⟨x, hx, hxc⟩⟩ := shapeTail_reading v c spatial hv hwv
+  obtain ⟨_, ⟨x, hx, hxc, hxu⟩⟩ := shapeTail_reading v c spatial hv hwv
   have hcong := calculateConvOutput_reading y (.tuple (spatial.map Val.int)) spatial hread
     (reading_tuple _ spatial (mapM_asInt_ints spatial))
   have hsa := shapeOfVal_shapeArray _ hfit
@@ -442,7 +459,7 @@ theorem stepNode_pool (pre post : Node) (vo vi : Val) (c : Int) (spatial outs : 
   rcases hk with rfl | rfl <;>
   simp [stepNode, h1, mirrorOutput, Node.isKind, Node.kind, Node.setInputType, Node.setTypes, Node.inputType,
     Node.outputType, inferOutput, typeDict, typeUndefined_single, isNoneVal, inferPool, poolOutputType, getItem,
-    Py.lookup, hy, hx, hxc, Node.field?, Node.fields, hcalc',
+    Py.lookup, hy, hx, hxc, Node.field?, Node.fields, hcalc', poolArray_cons _ _ _ _ hxu,
     Node.setOutputType, HasTypesK, hv, hsa, hwv, hwsa, bind, Except.bind, pure, Except.pure]
 
 end NirVerif.Lemmas
